@@ -167,7 +167,7 @@ def execute(ctx, seed, script, want, opcodes=None, horizon=40000):
                                                  if k not in ("_msg_queue", "_peer_data", "_peer_sockets", "_peer_threads"))))
     targets = [(lambda peer=peer: node.recv_loop(peer)) for peer in range(len(script))]
     sch = Sched(ctx, targets, want, state_fn=state_fn, horizon=horizon, opcodes=opcodes)
-    sch.run()
+    sch.run(timeout=120)
     obs = {
         "queue": list(node._msg_queue),
         "sent": [list(k.sent) for k in socks],
